@@ -57,9 +57,11 @@ impl PartialEq for Object {
             return false;
         }
         // because we allow duplicated keys in object, so we need to compare by `get`, and in both
-        // directions: a repeated key on one side must not hide a key that only the other side has
+        // directions: a repeated key on one side must not hide a key that only the other side has.
+        // The values are compared once: a name of `other` that `self` has as well was already
+        // compared in the first pass (comparing twice doubles the work at every nesting level).
         self.iter().all(|(k, _)| other.get(&k) == self.get(&k))
-            && other.iter().all(|(k, _)| self.get(&k) == other.get(&k))
+            && other.iter().all(|(k, _)| self.contains_key(&k))
     }
 }
 
